@@ -23,7 +23,7 @@ fn js(stream: &[Elt]) -> Value {
     json!(stream.iter().map(|e| json!([e.q, e.t, e.w, e.d])).collect::<Vec<_>>())
 }
 
-fn gen_stream(rng: &mut Rng, small: bool, tbase: u64, near_ties: bool) -> Vec<Elt> {
+fn gen_stream(rng: &mut Rng, small: bool, tbase: u64, near_ties: bool, dmode: u8) -> Vec<Elt> {
     let nq = 1 + rng.usize(if small { 2 } else { 6 });
     let nt = 1 + rng.usize(if small { 3 } else { 6 });
     let mut s = vec![];
@@ -45,6 +45,11 @@ fn gen_stream(rng: &mut Rng, small: bool, tbase: u64, near_ties: bool) -> Vec<El
                 } else if near_ties {
                     // claims whose weights differ only by a few f32 ulps: still ordered by weight
                     Some(f32::from_bits(0.5f32.to_bits() + rng.usize(6) as u32))
+                } else if dmode == 1 {
+                    // every distance negative (the library's own cosine() ranges over [-1, 1])
+                    Some(-(rng.uniform(0.0, 1.0) as f32).max(1e-3))
+                } else if dmode == 2 {
+                    Some(rng.uniform(-1.0, 1.0) as f32)
                 } else {
                     Some(rng.uniform(0.0, 2.0) as f32)
                 };
@@ -204,7 +209,7 @@ fn main() {
     let cli = Cli::parse();
     let mut rep = Report::new("C17", &cli);
     rep.note("rule", json!("case = result stream over <= 6 queries x <= 6 tracks x 0..5 distances per pair (missing distances / missing weights included) with random N, min_votes, max_distance, threshold; every 4th case is a small stream (<= 7 elements) that is run in ALL its permutations, larger ones in 50 random permutations. TopN / BestFit / Hungarian (SortVoting) / VisualVoting outputs are compared with references written from the statement (filter <= max_distance, group, >= min_votes, weight = sum(max seen - d), order, top-N; a track goes to its greatest-weight claimant, every qualifying claim yields an element; Hungarian: every query of the stream gets one track or itself, no track twice, objective optimal) and with their own output on the permuted stream. Near-ties (weights within 1e-6 relative) downgrade the comparison and are counted. Non-trivial: at least two queries compete for one track with qualifying claims; distinct by stream hash."));
-    rep.note("assumptions", json!(["the tracker-specific engines (Hungarian, Visual) see disjoint query / track id spaces, as in the trackers; the generic engines (top-N, best-fit) are also run with overlapping id spaces", "finite, non-negative distances and weights", "weights are tied only when equal up to f64 summation rounding (1e-12 relative)"]));
+    rep.note("assumptions", json!(["the tracker-specific engines (Hungarian, Visual) see disjoint query / track id spaces, as in the trackers; the generic engines (top-N, best-fit) are also run with overlapping id spaces", "finite distances >= -1 (the range of the library's own euclidean / cosine functions; 30% of the streams contain negative distances, half of those only negative ones) and non-negative positional weights", "weights are tied only when equal up to f64 summation rounding (1e-12 relative)"]));
     let n = cli.cases(40_000, 400_000);
     for idx in cli.index_range(n) {
         let mut rng = Rng::for_case(cli.seed, cli.shard, idx);
@@ -213,7 +218,12 @@ fn main() {
         // generic engines (top-N, best-fit) must handle; the tracker-specific engines always see disjoint ids
         let overlap = rng.chance(0.3);
         let near_ties = rng.chance(0.15);
-        let stream = gen_stream(&mut rng, small, if overlap { 0 } else { 100 }, near_ties);
+        // distance range: 70% non-negative (Euclidean-like), 15% all negative, 15% mixed sign in [-1, 1] (cosine-like)
+        let dmode: u8 = if near_ties { 0 } else { let u = rng.uniform(0.0, 1.0); if u < 0.7 { 0 } else if u < 0.85 { 1 } else { 2 } };
+        let stream = gen_stream(&mut rng, small, if overlap { 0 } else { 100 }, near_ties, dmode);
+        if dmode == 1 {
+            rep.count("cases_with_all_distances_negative");
+        }
         if overlap {
             rep.count("cases_with_overlapping_id_spaces");
         }
@@ -222,7 +232,7 @@ fn main() {
         }
         let topn = 1 + rng.usize(4);
         let minv = 1 + rng.usize(3);
-        let maxd = *rng.pick(&[0.3f32, 0.7, 1.0, 1.5, 5.0]);
+        let maxd = if dmode == 0 { *rng.pick(&[0.3f32, 0.7, 1.0, 1.5, 5.0]) } else { *rng.pick(&[-0.6f32, -0.2, 0.3, 1.0, 5.0]) };
         let thr = *rng.pick(&[0.1f32, 0.3, 0.5, 0.7]);
         rep.eval();
         let ctx = json!({"stream[q,t,weight,distance]": js(&stream), "topn": topn, "min_votes": minv, "max_distance": maxd, "threshold": thr});
